@@ -79,3 +79,354 @@ Proof.
   rewrite E. destruct (IH tl1 (fun x Hx => Hids x (or_intror Hx)) A1) as [tl' [E' [I1 I2]]].
   exists tl'. split; [exact E'|]. split; [exact I1 | auto].
 Qed.
+
+(* ---------- swapping keeps the indices duplicate free ---------- *)
+Lemma zswap_nodup : forall l i j l', zswap l i j = Ok l' -> NoDup l -> NoDup l'.
+Proof.
+  intros l i j l' H Hnd. unfold zswap in H.
+  destruct (zget l i) as [a|] eqn:Ei; [|discriminate]. destruct (zget l j) as [b|] eqn:Ej; [|discriminate].
+  inversion H; subst l'; clear H.
+  pose proof (zget_some_inr _ _ _ _ Ei) as [Hi0 Hi1]. pose proof (zget_some_inr _ _ _ _ Ej) as [Hj0 Hj1].
+  rewrite zget_nth_error in Ei, Ej by lia. unfold zlen in *.
+  set (ni := Z.to_nat i) in *. set (nj := Z.to_nat j) in *.
+  assert (Hni : (ni < length l)%nat) by (unfold ni; lia). assert (Hnj : (nj < length l)%nat) by (unfold nj; lia).
+  pose (sigma := fun k : nat => if (k =? nj)%nat then ni else if (k =? ni)%nat then nj else k).
+  assert (Hnth : forall k, nth_error (zset (zset l i b) j a) k = nth_error l (sigma k)).
+  { intros k. rewrite nth_error_zset by lia. rewrite length_zset. fold nj. unfold sigma.
+    destruct (Nat.eqb_spec k nj) as [->|Hkj].
+    - destruct (Nat.ltb_spec nj (length l)); [|lia]. cbn [andb]. symmetry; exact Ei.
+    - cbn [andb]. rewrite nth_error_zset by lia. fold ni.
+      destruct (Nat.eqb_spec k ni) as [->|Hki]; [|reflexivity].
+      destruct (Nat.ltb_spec ni (length l)); [|lia]. cbn [andb]. symmetry; exact Ej. }
+  apply NoDup_nth_error. intros k1 k2 Hk1 E. rewrite !length_zset in Hk1. rewrite !Hnth in E.
+  rewrite NoDup_nth_error in Hnd.
+  assert (Hs1 : (sigma k1 < length l)%nat).
+  { unfold sigma. destruct (k1 =? nj)%nat; [lia|]. destruct (k1 =? ni)%nat; lia. }
+  specialize (Hnd _ _ Hs1 E). unfold sigma in Hnd.
+  destruct (Nat.eqb_spec k1 nj); destruct (Nat.eqb_spec k2 nj); destruct (Nat.eqb_spec k1 ni); destruct (Nat.eqb_spec k2 ni); lia.
+Qed.
+
+Lemma zget_zset : forall (A : Type) (l : list A) i x k, inr l i ->
+  zget (zset l i x) k = if k =? i then Some x else zget l k.
+Proof.
+  intros A l i x k [Hi0 Hi1]. unfold zlen in Hi1. unfold zget at 1.
+  destruct (Z.ltb_spec k 0) as [Hk|Hk].
+  - destruct (Z.eqb_spec k i); [lia|]. unfold zget. destruct (Z.ltb_spec k 0); [reflexivity|lia].
+  - rewrite nth_error_zset by lia. destruct (Z.eqb_spec k i) as [->|Hne].
+    + rewrite Nat.eqb_refl. destruct (Nat.ltb_spec (Z.to_nat i) (length l)); [reflexivity|lia].
+    + destruct (Nat.eqb_spec (Z.to_nat k) (Z.to_nat i)); [lia|]. cbn [andb]. rewrite zget_nth_error by lia. reflexivity.
+Qed.
+
+Lemma hc_scan_pred_alloc : forall st size al nb address pred fits a p f,
+  hc_scan st size al nb address pred fits = (a, p, f) -> p = pred \/ (In p nb /\ is_alloc st p).
+Proof.
+  intros st size al. induction nb as [|j r IH]; intros address pred fits a p f H; cbn [hc_scan] in H.
+  - inversion H; auto.
+  - destruct ((h_addr (hget st j) =? NOT_ALLOCATED) || (h_end (hget st j) <=? address)) eqn:E1.
+    + destruct (IH _ _ _ _ _ _ H) as [?|[? ?]]; auto. right; split; [right|]; assumption.
+    + destruct (_ && _).
+      * apply orb_false_elim in E1. destruct E1 as [E1 _]. apply Z.eqb_neq in E1.
+        destruct (IH _ _ _ _ _ _ H) as [->|[? ?]]; [right; split; [left; reflexivity | exact E1] | right; split; [right|]; assumption].
+      * destruct (IH _ _ _ _ _ _ H) as [?|[? ?]]; auto. right; split; [right|]; assumption.
+Qed.
+
+Lemma hc_fit_pred_alloc : forall st size al nb fuel address pred a p,
+  hc_fit fuel st size al nb address pred = Some (a, p) -> p = pred \/ (In p nb /\ is_alloc st p).
+Proof.
+  intros st size al nb. induction fuel as [|f IH]; intros address pred a p H; [discriminate|]. cbn [hc_fit] in H.
+  destruct (hc_scan st size al nb address pred true) as [[a1 p1] f1] eqn:E.
+  pose proof (hc_scan_pred_alloc _ _ _ _ _ _ _ _ _ _ E) as Hp.
+  destruct f1; [inversion H; subst; exact Hp|].
+  destruct (IH _ _ _ _ H) as [->|]; auto.
+Qed.
+
+(* ---------- ranks through an allocation pass ---------- *)
+Section Rank.
+  Variable lrs : list lr.
+  Hypothesis Hwf : Forall hc_wf lrs.
+  Let n := length lrs.
+  Let nbrs := all_neighbours lrs.
+  Let base (B : Z) : Z := B - Z.of_nat n - 1.
+
+  Definition rank_inv (st : list hinfo) (R : Z -> Z) (B turn : Z) (stale_ok : Prop) : Prop :=
+    (forall k h, zget st k = Some h -> h_addr h = NOT_ALLOCATED -> B <= R k) /\
+    (forall k h, zget st k = Some h -> h_addr h <> NOT_ALLOCATED -> base B <= R k < base B + turn) /\
+    (forall k h, zget st k = Some h -> h_addr h <> NOT_ALLOCATED -> h_pred h <> NO_PREDECESSOR -> R (h_pred h) < R k) /\
+    (stale_ok -> forall k h, zget st k = Some h -> h_addr h = NOT_ALLOCATED -> h_pred h <> NO_PREDECESSOR -> R (h_pred h) < R k).
+
+  Lemma alloc_loop_rank : forall best stale_ok idx turn size st st' sz R B,
+    st_ok n st -> all_in n idx -> NoDup idx -> 0 <= turn -> turn + Z.of_nat (length idx) <= Z.of_nat n ->
+    (forall j h, In j idx -> zget st j = Some h -> h_addr h = NOT_ALLOCATED) ->
+    rank_inv st R B turn stale_ok ->
+    alloc_loop lrs nbrs best idx turn size st = Ok (st', sz) ->
+    exists R' turn', rank_inv st' R' B turn' stale_ok /\ turn' <= Z.of_nat n.
+  Proof.
+    intros best stale_ok. induction idx as [|i rest IH]; intros turn size st st' sz R B Hst Hidx Hnd Ht0 Htn Hun Hinv Hrun;
+      cbn [alloc_loop] in Hrun.
+    { inversion Hrun; subst. exists R, turn. split; [exact Hinv | cbn in Htn; lia]. }
+    assert (Hi : inrange n i) by (apply Hidx; left; reflexivity).
+    destruct (zget st i) as [h0|] eqn:Eh0; [|discriminate].
+    assert (Hi_un : h_addr h0 = NOT_ALLOCATED) by (eapply Hun; [left; reflexivity | exact Eh0]).
+    destruct (allocate_lr lrs nbrs st i) as [st1|c] eqn:Ea; [|discriminate].
+    unfold allocate_lr in Ea.
+    destruct (hc_fit _ st _ _ (nget nbrs i) 0 NO_PREDECESSOR) as [[a p]|] eqn:Efit; [|discriminate].
+    inversion Ea; subst st1; clear Ea.
+    destruct (hc_fit_spec st _ _ (nget nbrs i) (lget_align_pos lrs Hwf i) _ _ _ _ _ Efit) as (Fa & _).
+    assert (Hinr : inr st i) by (destruct Hst as [Hl _]; unfold inr, zlen; rewrite Hl; exact Hi).
+    set (st1 := zset st i (mkH a (a + lr_size (lget lrs i)) p (h_turn (hget st i)))) in *.
+    assert (Hinr1 : inr st1 i) by (unfold inr, st1; rewrite zlen_zset; exact Hinr).
+    assert (Hhh : hget st1 i = mkH a (a + lr_size (lget lrs i)) p (h_turn (hget st i))).
+    { unfold st1. rewrite hget_zset; [rewrite Z.eqb_refl; reflexivity | exact Hinr | destruct Hi; lia]. }
+    rewrite Hhh in Hrun. cbn [h_addr h_end h_pred] in Hrun.
+    set (hn := mkH a (a + lr_size (lget lrs i)) p turn) in *.
+    set (st2 := zset st1 i hn) in *.
+    assert (Hg2 : forall k, zget st2 k = if k =? i then Some hn else zget st k).
+    { intros k. unfold st2. rewrite zget_zset by exact Hinr1. destruct (Z.eqb_spec k i); [reflexivity|].
+      unfold st1. rewrite zget_zset by exact Hinr. destruct (Z.eqb_spec k i); [contradiction|reflexivity]. }
+    (* the predecessor is an allocated neighbour *)
+    assert (Hp : p = NO_PREDECESSOR \/ exists hp, zget st p = Some hp /\ h_addr hp <> NOT_ALLOCATED /\ p <> i).
+    { destruct (hc_fit_pred_alloc _ _ _ _ _ _ _ _ _ Efit) as [->|[Hin Hal]]; [left; reflexivity|]. right.
+      assert (Hpr : inrange n p).
+      { destruct (all_neighbours_range lrs) as [Hnl Hna]. fold n nbrs in Hnl, Hna.
+        unfold nget in Hin. destruct (Nat.ltb_spec (Z.to_nat i) (length nbrs)).
+        - apply (Hna (nth (Z.to_nat i) nbrs [])); [apply nth_In; exact H | exact Hin].
+        - rewrite nth_overflow in Hin by exact H. destruct Hin. }
+      destruct (zget_ok _ st p) as [hp [Hhp _]]; [destruct Hst as [-> _]; exact Hpr|].
+      exists hp. split; [exact Hhp|]. unfold is_alloc in Hal. rewrite (zget_hget _ _ _ Hhp) in Hal.
+      split; [exact Hal|]. intros ->. rewrite Eh0 in Hhp. inversion Hhp; subst. contradiction. }
+    assert (Hturn : turn < Z.of_nat n) by (cbn [length] in Htn; lia).
+    set (R' := fun k => if k =? i then base B + turn else R k).
+    assert (Hinv2 : rank_inv st2 R' B (turn + 1) stale_ok).
+    { destruct Hinv as (Ia & Ib & Ic1 & Ic2). unfold rank_inv, R'. split; [|split; [|split]].
+      - intros k h Hk Hu. rewrite Hg2 in Hk. destruct (Z.eqb_spec k i); [inversion Hk; subst h; change (h_addr hn) with a in Hu; unfold NOT_ALLOCATED in Hu; lia|].
+        eapply Ia; eauto.
+      - intros k h Hk Hal. rewrite Hg2 in Hk. destruct (Z.eqb_spec k i) as [Hki|Hki]; cbv beta iota.
+        + clear - Ht0. lia.
+        + pose proof (Ib k h Hk Hal) as X. clear - X. lia.
+      - intros k h Hk Hal Hpn. rewrite Hg2 in Hk. destruct (Z.eqb_spec k i) as [Hki|Hki].
+        + inversion Hk; subst h. change (h_pred hn) with p in *. destruct Hp as [Hp|[hp [Hhp [Hpa Hpi]]]]; [contradiction|].
+          destruct (Z.eqb_spec p i); [contradiction|]. cbv beta iota. pose proof (Ib p hp Hhp Hpa) as X. clear - X. lia.
+        + destruct (Z.eqb_spec (h_pred h) i) as [E|E]; cbv beta iota.
+          * (* an allocated range cannot point to the still unallocated i *)
+            pose proof (Ic1 k h Hk Hal Hpn) as C. rewrite E in C. pose proof (Ia i h0 Eh0 Hi_un) as Y.
+            pose proof (Ib k h Hk Hal) as X. unfold base in *. clear - C Y X Hturn. lia.
+          * apply Ic1; auto.
+      - intros Hso k h Hk Hu Hpn. rewrite Hg2 in Hk. destruct (Z.eqb_spec k i) as [Hki|Hki].
+        + inversion Hk; subst h. change (h_addr hn) with a in Hu. unfold NOT_ALLOCATED in Hu. lia.
+        + destruct (Z.eqb_spec (h_pred h) i) as [E|E]; cbv beta iota.
+          * pose proof (Ia k h Hk Hu) as Y. unfold base. clear - Y Hturn. lia.
+          * apply Ic2; auto. }
+    assert (Hst2 : st_ok n st2).
+    { destruct Hst as [Hl Hs]. split; [unfold st2, st1; rewrite !length_zset; exact Hl|].
+      intros h Hh. unfold st2 in Hh. apply in_zset in Hh.
+      assert (Hpr : h_pred hn = NO_PREDECESSOR \/ inrange n (h_pred hn)).
+      { cbn. destruct Hp as [Hp|[hp [Hhp _]]]; [left; exact Hp | right].
+        pose proof (zget_some_inr _ _ _ _ Hhp) as X. unfold inr, zlen in X. rewrite Hl in X. exact X. }
+      destruct Hh as [->|Hh]; [split; [cbn; unfold inrange; lia | exact Hpr]|].
+      unfold st1 in Hh. apply in_zset in Hh. destruct Hh as [->|Hh]; [|apply Hs; exact Hh].
+      split; [|exact Hpr]. cbn. apply (Hs (hget st i)). rewrite (zget_hget _ _ _ Eh0). eapply zget_in; eauto. }
+    destruct (_ >? best).
+    - inversion Hrun; subst st' sz. exists R', (turn + 1). split; [exact Hinv2 | lia].
+    - inversion Hnd as [|? ? Hnotin Hnd']; subst.
+      eapply (IH (turn + 1) _ st2 st' sz R' B); eauto; try lia.
+      + intros x Hx; apply Hidx; right; exact Hx.
+      + cbn [length] in Htn. lia.
+      + intros j h Hj Hz. rewrite Hg2 in Hz. destruct (Z.eqb_spec j i) as [->|]; [contradiction|].
+        eapply Hun; [right; exact Hj | exact Hz].
+  Qed.
+End Rank.
+
+Section RankFinal.
+  Variable lrs : list lr.
+  Let n := length lrs.
+
+  Lemma rank_final : forall st R B turn (stale_ok : Prop),
+    rank_inv lrs st R B turn stale_ok ->
+    (stale_ok \/ forall k h, zget st k = Some h -> h_addr h <> NOT_ALLOCATED) ->
+    predok st R /\ forall k h, zget st k = Some h -> B - Z.of_nat n - 1 <= R k.
+  Proof.
+    intros st R B turn stale_ok (Ia & Ib & Ic1 & Ic2) Hor. split.
+    - intros k h Hk Hp. destruct (Z.eq_dec (h_addr h) NOT_ALLOCATED) as [Hu|Hal].
+      + destruct Hor as [Hso|Hall]; [apply (Ic2 Hso k h Hk Hu Hp) | exfalso; apply (Hall k h Hk Hu)].
+      + apply (Ic1 k h Hk Hal Hp).
+    - intros k h Hk. destruct (Z.eq_dec (h_addr h) NOT_ALLOCATED) as [Hu|Hal].
+      + pose proof (Ia k h Hk Hu). fold n. lia.
+      + pose proof (Ib k h Hk Hal) as X. fold n in X. lia.
+  Qed.
+
+  Lemma zget_reset : forall st k, zget (reset_addresses st) k =
+    match zget st k with Some h => Some (mkH NOT_ALLOCATED (h_end h) (h_pred h) (h_turn h)) | None => None end.
+  Proof.
+    intros st k. unfold zget, reset_addresses. destruct (k <? 0); [reflexivity|]. rewrite nth_error_map.
+    destruct (nth_error st (Z.to_nat k)); reflexivity.
+  Qed.
+
+  Lemma rank_reset : forall st R B (stale_ok : Prop),
+    (forall k h, zget st k = Some h -> B <= R k) -> (stale_ok -> predok st R) ->
+    rank_inv lrs (reset_addresses st) R B 0 stale_ok.
+  Proof.
+    intros st R B stale_ok Hlow Hpo. unfold rank_inv. split; [|split; [|split]].
+    - intros k h Hk _. rewrite zget_reset in Hk. destruct (zget st k) as [h0|] eqn:E; [|discriminate]. eapply Hlow; eauto.
+    - intros k h Hk Hal. rewrite zget_reset in Hk. destruct (zget st k); [|discriminate]. inversion Hk; subst h. cbn in Hal. contradiction.
+    - intros k h Hk Hal. rewrite zget_reset in Hk. destruct (zget st k); [|discriminate]. inversion Hk; subst h. cbn in Hal. contradiction.
+    - intros Hso k h Hk _ Hp. rewrite zget_reset in Hk. destruct (zget st k) as [h0|] eqn:E; [|discriminate].
+      inversion Hk; subst h. cbn [h_pred] in *. apply (Hpo Hso k h0 E Hp).
+  Qed.
+End RankFinal.
+
+Section WalkSearch.
+  Variable S : Type.
+  Variable next : S -> Z * S.
+  Variable lrs : list lr.
+  Hypothesis Hwf : Forall hc_wf lrs.
+  Hypothesis Hne : (0 < length lrs)%nat.
+  Let n := length lrs.
+  Let nbrs := all_neighbours lrs.
+
+  Lemma attempt_only_valueerror : forall st idx stuck s R,
+    st_ok n st -> idx_ok n idx -> NoDup idx -> predok st R ->
+    match attempt_bottleneck_fix S next lrs nbrs st idx stuck s with
+    | Ok (idx', _) => idx_ok n idx' /\ NoDup idx'
+    | Err c => c = 1
+    end.
+  Proof.
+    intros st idx stuck s R Hst Hidx Hnd Hpo. unfold attempt_bottleneck_fix.
+    assert (Hl : length lrs = n) by reflexivity.
+    assert (Hmx : inrange n (bottleneck st)).
+    { destruct Hst as [Hsl _]. rewrite <- Hsl. apply bottleneck_range. intros C. rewrite C in Hsl. cbn in Hsl. unfold n in Hsl. lia. }
+    destruct (zget_ok _ lrs (bottleneck st)) as [mxr [Hmxr _]]; [exact Hmx|]. rewrite Hmxr.
+    destruct (all_neighbours_range lrs) as [Hnl Hna]. fold n nbrs in Hnl, Hna.
+    destruct (zget_ok _ nbrs (bottleneck st)) as [mxn [Hmxn Hmxnin]]; [rewrite Hnl; exact Hmx|]. rewrite Hmxn.
+    destruct (add_predecessor_turns_no_err n st R Hst Hpo [] (bottleneck st) Hmx (fun x (H : In x []) => match H with end))
+      as [tl0 [E0 [A1 [_ A3]]]]. rewrite E0.
+    destruct (add_pred_list_no_err n st R Hst Hpo mxn tl0 (Hna mxn Hmxnin) A1) as [tl [E1 [B1 B2]]]. rewrite E1.
+    assert (Htlne : tl <> []).
+    { destruct tl0 as [|t0 r0]; [contradiction|]. intros C. assert (In t0 tl) by (apply B2; left; reflexivity). rewrite C in H. destruct H. }
+    destruct (non_nb_turns_range n lrs idx mxr Hl Hidx tl B1) as [nn [Enn Hnn]]. rewrite Enn.
+    destruct (randint_range S next 0 100 s ltac:(lia)) as [r0 [s0 [Er0 _]]]. rewrite Er0.
+    assert (P1 : match (if (r0 <? 30) && negb (zlen nn =? 0) then pick S next nn 1 s0 else pick S next tl 1 s0) with
+                 | Ok (x, _) => inrange n x | Err c => c = 1 end).
+    { destruct ((r0 <? 30) && negb (zlen nn =? 0)).
+      - pose proof (pick_range S next n nn 1 s0 Hnn ltac:(lia)) as P. destruct (pick S next nn 1 s0) as [[x sx]|c]; [apply P | exact P].
+      - pose proof (pick_range S next n tl 1 s0 B1 ltac:(lia)) as P. destruct (pick S next tl 1 s0) as [[x sx]|c]; [apply P | exact P]. }
+    destruct (if (r0 <? 30) && negb (zlen nn =? 0) then pick S next nn 1 s0 else pick S next tl 1 s0) as [[ix1 s1]|c];
+      [|exact P1].
+    pose proof (pick_range S next n tl 2 s1 B1 ltac:(lia)) as P2.
+    destruct (pick S next tl 2 s1) as [[ix2a s2]|c]; [|exact P2]. destruct P2 as [P2 _].
+    assert (Hix2 : inrange n (if ix1 =? ix2a then last tl 0 else ix2a)).
+    { destruct (ix1 =? ix2a); [|exact P2]. apply B1.
+      destruct tl as [|t r]; [contradiction|]. clear. revert t. induction r as [|y r IH]; intros t; [left; reflexivity|].
+      right. apply IH. }
+    destruct Hidx as [Hil Hia].
+    destruct (zswap_range idx ix1 _ ltac:(rewrite Hil; exact P1) ltac:(rewrite Hil; exact Hix2)) as [idx1 [Es [Hl1 Hin1]]].
+    rewrite Es.
+    assert (Hidx1 : idx_ok n idx1) by (split; [lia | intros x Hx; apply Hia, Hin1, Hx]).
+    pose proof (zswap_nodup _ _ _ _ Es Hnd) as Hnd1.
+    destruct (stuck >? MAX_ITERATIONS_STUCK); [|split; assumption].
+    destruct (add_more_turns_range n nbrs st idx1 (conj Hnl Hna) Hst Hidx1 nn tl Hnn B1) as [tl2 [Em [M1 M2]]]. rewrite Em.
+    pose proof (pick_range S next n tl2 1 s2 M1 ltac:(lia)) as Q1.
+    destruct (pick S next tl2 1 s2) as [[jx1 s3]|c]; [|exact Q1]. destruct Q1 as [Q1 _].
+    pose proof (pick_range S next n tl2 1 s3 M1 ltac:(lia)) as Q2.
+    destruct (pick S next tl2 1 s3) as [[jx2 s4]|c]; [|exact Q2]. destruct Q2 as [Q2 _].
+    destruct Hidx1 as [Hil1 Hia1].
+    destruct (zswap_range idx1 jx1 jx2 ltac:(rewrite Hil1; exact Q1) ltac:(rewrite Hil1; exact Q2)) as [idx2 [Es2 [Hl2 Hin2]]].
+    rewrite Es2. split; [split; [lia | intros x Hx; apply Hia1, Hin2, Hx] | eapply zswap_nodup; eauto].
+  Qed.
+
+  Definition yinv (x : sstate S) : Prop :=
+    xinv S lrs x /\ NoDup (ss_idx S x) /\ NoDup (ss_bidx S x) /\
+    exists R B, predok (ss_st S x) R /\ forall k h, zget (ss_st S x) k = Some h -> B <= R k.
+  Definition only_1 (r : sresult) : Prop := match r with Ok _ => True | Err c => c = 1 end.
+
+  Lemma pass_keeps_ranks : forall best idx st st1 sz R B,
+    st_ok n st -> idx_ok n idx -> NoDup idx -> predok st R -> (forall k h, zget st k = Some h -> B <= R k) ->
+    allocate_indices lrs nbrs best idx st = Ok (st1, sz) ->
+    exists R' B', predok st1 R' /\ forall k h, zget st1 k = Some h -> B' <= R' k.
+  Proof.
+    intros best idx st st1 sz R B Hst [Hil Hia] Hnd Hpo Hlow Hrun. unfold allocate_indices in Hrun.
+    destruct (alloc_loop_rank lrs Hwf best True idx 0 0 (reset_addresses st) st1 sz R B) as [R' [t' [Hri _]]]; auto.
+    - apply reset_st_ok; exact Hst.
+    - lia.
+    - fold n. lia.
+    - intros j h _ Hz. rewrite zget_reset in Hz. destruct (zget st j); [|discriminate]. inversion Hz; reflexivity.
+    - apply rank_reset; auto.
+    - destruct (rank_final lrs st1 R' B t' True Hri (or_introl I)) as [P1 P2]. eauto.
+  Qed.
+
+  Lemma search_step_walk : forall minreq maxit limit x, yinv x ->
+    match search_step S next lrs nbrs minreq maxit limit x with Continue x' => yinv x' | Done r => only_1 r end.
+  Proof.
+    intros minreq maxit limit x ((Hst & Hidx & Hb) & Hnd & Hndb & R & B & Hpo & Hlow). unfold search_step.
+    destruct (_ || _); [|exact I].
+    pose proof (attempt_only_valueerror (ss_st S x) (ss_idx S x) (ss_i S x - ss_last S x) (ss_rng S x) R Hst Hidx Hnd Hpo) as A.
+    destruct (attempt_bottleneck_fix _ _ _ _ _ _ _ _) as [[idx1 rng1]|c]; [|exact A]. destruct A as [A Hnd1].
+    destruct (allocate_indices_total lrs Hwf (ss_best S x) idx1 (ss_st S x) Hst A) as [st1 [sz [E Hst1]]].
+    fold nbrs in E. rewrite E.
+    destruct (pass_keeps_ranks _ _ _ _ _ R B Hst A Hnd1 Hpo Hlow E) as [R' [B' [Hpo' Hlow']]].
+    destruct (sz <=? ss_best S x).
+    - destruct (sz <=? minreq); [exact I|]. unfold yinv, xinv; cbn. repeat split; auto. exists R', B'. auto.
+    - unfold yinv, xinv; cbn. repeat split; auto. exists R', B'. auto.
+  Qed.
+
+  Lemma search_walk : forall minreq maxit limit x, yinv x ->
+    ss_last S x = 0 -> ss_i S x = 0 -> minreq < ss_best S x ->
+    only_1 (search S next lrs nbrs minreq maxit limit x).
+  Proof.
+    intros minreq maxit limit x Hx Hl Hi Hb. unfold search.
+    destruct (search_loop_terminates_lemma S next lrs nbrs minreq maxit limit x Hl Hi Hb) as [r Hr]. rewrite Hr.
+    pose proof (iter_pos_inv _ _ yinv only_1 _ (search_step_walk minreq maxit limit)
+                  (search_fuel minreq maxit (ss_best S x)) x Hx) as V.
+    rewrite Hr in V. exact V.
+  Qed.
+End WalkSearch.
+
+Lemma initial_indices_nodup : forall lrs, NoDup (initial_indices lrs).
+Proof.
+  intros lrs. apply (Permutation.Permutation_NoDup (Permutation.Permutation_sym (initial_indices_perm lrs))).
+  generalize 0. induction (length lrs) as [|k IH]; intros z; cbn [zrange]; constructor.
+  - intros H. apply in_zrange in H. lia.
+  - apply IH.
+Qed.
+
+(* for every stream, the only abnormal outcome of a hill-climb run is the ValueError of random.randint *)
+Lemma hillclimb_only_valueerror_lemma : forall (S : Type) (next : S -> Z * S) lrs mi limit s,
+  Forall hc_wf lrs -> footprint_bound lrs <= 2 ^ 63 ->
+  match hillclimb S next lrs mi limit s with Ok _ => True | Err c => c = 1 end.
+Proof.
+  intros S next lrs mi limit s Hwf Hfb.
+  destruct (Nat.eq_dec (length lrs) 0) as [E0|E0].
+  { apply length_zero_iff_nil in E0. subst lrs. rewrite hillclimb_nil. exact I. }
+  assert (Hn : (0 < length lrs)%nat) by lia.
+  rewrite hillclimb_nonempty by (intros C; rewrite C in E0; apply E0; reflexivity). cbv zeta.
+  destruct (allocate_indices_total lrs Hwf (2 ^ 63) (initial_indices lrs) (initial_state lrs)
+              (initial_state_ok lrs Hn) (initial_indices_ok lrs)) as [st1 [b0 [E Hst1]]].
+  rewrite E.
+  set (x0 := mkSS S (s, 0) st1 (initial_indices lrs) (initial_indices lrs) b0 0 0 (map h_addr st1)).
+  destruct (Z.gtb_spec b0 (min_required_size lrs)) as [Hgt|Hle]; [|exact I].
+  apply (search_walk S next lrs Hwf Hn); auto.
+  (* the first pass is complete, so every range has a fresh predecessor and turn *)
+  assert (Hl0 : length (initial_state lrs) = length lrs) by (unfold initial_state; apply map_length).
+  destruct (allocate_indices_spec lrs (all_neighbours lrs) (nbrs_ok lrs Hwf) Hwf _ _ _ _ _ Hl0 E) as (A1 & _ & _ & A4 & A5).
+  rewrite initial_sum_bound in A4.
+  assert (Hall : forall k h, zget st1 k = Some h -> h_addr h <> NOT_ALLOCATED).
+  { intros k h Hk. pose proof (zget_some_inr _ _ _ _ Hk) as [K0 K1]. unfold zlen in K1. rewrite A1 in K1.
+    assert (Ha : is_alloc st1 k) by (apply A5; [lia | apply initial_indices_covers; lia]).
+    unfold is_alloc in Ha. rewrite (zget_hget _ _ _ Hk) in Ha. exact Ha. }
+  unfold allocate_indices in E.
+  destruct (alloc_loop_rank lrs Hwf (2 ^ 63) False (initial_indices lrs) 0 0 (reset_addresses (initial_state lrs)) st1 b0
+              (fun _ => 0) 0) as [R' [t' [Hri _]]]; auto.
+  - apply reset_st_ok. apply initial_state_ok; exact Hn.
+  - apply initial_indices_ok.
+  - apply initial_indices_nodup.
+  - lia.
+  - destruct (initial_indices_ok lrs) as [-> _]. lia.
+  - intros j h _ Hz. rewrite zget_reset in Hz. destruct (zget (initial_state lrs) j); [|discriminate]. inversion Hz; reflexivity.
+  - apply rank_reset; [intros; lia | intros []].
+  - destruct (rank_final lrs st1 R' 0 t' False Hri (or_intror Hall)) as [P1 P2].
+    unfold yinv, xinv, x0; cbn. repeat split; auto using initial_indices_ok, initial_indices_nodup.
+    + apply initial_indices_ok.
+    + apply initial_indices_ok.
+    + apply initial_indices_ok.
+    + apply initial_indices_ok.
+    + eauto.
+Qed.
